@@ -36,7 +36,7 @@ func rewriteName(s string) string {
 
 var topNames = []string{"TestA", "TestAB", "TestB", "TestA1", "TestA10", "TestA2", "Test_x", "TestÄ", "TestC2", "TestC10", "Test"}
 
-var subRaw = []string{"s", "s#01", "1", "10", "2", "9", "sub test", "a b", "x/y", "100%", "[x]", "a-b", "a - b", "é", "#00", "Sub", "deep", ".", "a.b", "%d", "%s", "%%"}
+var subRaw = []string{"/lead", "../rel", "a//b", "s", "s#01", "1", "10", "2", "9", "sub test", "a b", "x/y", "100%", "[x]", "a-b", "a - b", "é", "#00", "Sub", "deep", ".", "a.b", "%d", "%s", "%%"}
 
 func genSubName(t *rapid.T) string {
 	if rapid.IntRange(0, 9).Draw(t, "subkind") < 8 {
